@@ -142,6 +142,10 @@ class MachO(BinFormat):
         f.seek(0)
         while lcsize < self.header.sizeofcmds:
             cmd = struct_load_command(f, offset)
+            if cmd.cmdsize < 8:
+                # (a load command is at least its 8-byte header: a smaller
+                # size would never advance)
+                raise MachOError("invalid load command size")
             data = f[offset : offset + cmd.cmdsize]
             offset += cmd.cmdsize
             lcsize += cmd.cmdsize
